@@ -1766,11 +1766,16 @@ def split_conditionals(fn):
                 # a conditional value nested in the statement's expression (also inside a comprehension, when its test does not
                 # use the comprehension's variables): with an effect-free test the statement is an if/else over two copies
                 hit = _nested_ifexp(st.value)
+                if hit is None and isinstance(st.value, (ast.Yield, ast.YieldFrom)) and st.value.value is not None:
+                    # the operand of a statement-level yield / yield from is evaluated completely before anything is yielded
+                    hit = _nested_ifexp(st.value.value)
                 if hit is not None and is_pure(hit.test) and not (
                         {x.id for x in ast.walk(hit.test) if isinstance(x, ast.Name)} &
                         {x.id for x in ast.walk(st) if isinstance(x, ast.Name) and isinstance(x.ctx, ast.Store)}):
                     a_, b_ = copy.deepcopy(st), copy.deepcopy(st)
                     ha, hb = _nested_ifexp(a_.value), _nested_ifexp(b_.value)
+                    if ha is None:
+                        ha, hb = _nested_ifexp(a_.value.value), _nested_ifexp(b_.value.value)
                     _replace_node(a_, ha, ha.body)
                     _replace_node(b_, hb, hb.orelse)
                     new = ast.copy_location(ast.If(test=hit.test, body=[a_], orelse=[b_]), st)
